@@ -18,7 +18,16 @@ Inductive case :=
 | CTableRule (nb : list nat) (t : table) (obs : res Z)
 (* tables of > 10^5 entries ('large/near_target/*'): decided by the Python property oracle alone;
    evaluating the association-list model on them is too slow, so no model output is compared *)
-| CNoModel.
+| CNoModel
+(* 'paramtypes/*': a neighbourhood whose elements do not render as decimal numerals (float64 1.0 -> '1.0', bool -> 'True'):
+   the harness renders the string itself; the library must look up exactly that string, ValueError when absent *)
+| CTableLookup (s : key) (t : table) (obs : res Z)
+(* 'paramtypes/*': the table is a read-only mapping (MappingProxyType): the walk returns normally iff it performs no
+   perturbation (the model returns the table unchanged), otherwise the first assignment raises *)
+| CTwtReadOnly (t : table) (lam : Q) (k r : nat) (q : Z) (sq iso : bool) (cs : list N) (obs : res (table * lam_obs)).
+
+Definition entry_eqb (a b : key * Z) : bool := key_eqb (fst a) (fst b) && (snd a =? snd b)%Z.
+Definition table_eqb : table -> table -> bool := list_eqb entry_eqb.
 
 (* model output in one printable shape: table, lambda, q (or the looked-up value) *)
 Definition model_out (c : case) : res (table * Q * Z) :=
@@ -30,10 +39,15 @@ Definition model_out (c : case) : res (table * Q * Z) :=
         match o with Some (t', l) => Ok (t', l, q) | None => Raise OtherError end)
   | CTableRule nb t _ => bind (table_rule nb t) (fun v => Ok ([], 0%Q, v))
   | CNoModel => Ok ([], 0%Q, 0%Z)
+  | CTableLookup s t _ => match lookup s t with Some v => Ok ([], 0%Q, v) | None => Raise ValueError end
+  | CTwtReadOnly t lam k r q sq iso cs _ =>
+      bind (table_walk_through t lam k r q sq iso (idx cs)) (fun o =>
+        match o with
+        | Some (t', l) => if table_eqb t' t then Ok (t', l, q) else Raise TypeError
+        | None => Raise OtherError
+        end)
   end.
 
-Definition entry_eqb (a b : key * Z) : bool := key_eqb (fst a) (fst b) && (snd a =? snd b)%Z.
-Definition table_eqb : table -> table -> bool := list_eqb entry_eqb.
 Definition lam_eqb (l : Q) (o : lam_obs) : bool :=
   (0 <? snd o)%Z && Qeq_bool l (fst o # Z.to_pos (snd o)).
 
@@ -56,4 +70,11 @@ Definition check_case (c : case) : bool :=
       (* ValueError is named by the property: classes compared exactly *)
       res_eqb Z.eqb (bind (model_out c) (fun x => Ok (snd x))) obs
   | CNoModel => true
+  | CTableLookup _ _ obs => res_eqb Z.eqb (bind (model_out c) (fun x => Ok (snd x))) obs
+  | CTwtReadOnly _ _ _ _ _ _ _ _ obs =>
+      match model_out c, obs with
+      | Ok (t, l, _), Ok (t', l') => table_eqb t t' && lam_eqb l l'
+      | Raise _, Raise _ => true
+      | _, _ => false
+      end
   end.
